@@ -279,6 +279,12 @@ def _get_best_taylor_coefficients(bs, rs, m, max_m1m2):
     mvec = np.arange(m)
     if len(extrap) > 2:
         all_coefs, all_errors = dea3(extrap[:-2], extrap[1:-1], extrap[2:])
+        # Each estimate is built from the FFTs on 5 successive circles and cannot be more accurate
+        # than their rounding noise EPS * max|f| / r**k; without it exact zeros of the FFT on small
+        # circles are extrapolated to zero with zero error and win the selection.
+        floors = [EPS * np.max(np.abs(bs[i + 4]) * rs[i + 4] ** mvec) / np.min(rs[i:i + 5]) ** mvec
+                  for i in range(len(all_errors))]
+        all_errors = all_errors + np.array(floors)
         steps = np.atleast_1d(rs[4:])[:, None] * mvec
         # pylint: disable=protected-access
         coefs, info = _Limit._get_best_estimate(all_coefs, all_errors, steps, (m,))
